@@ -122,8 +122,12 @@ impl MemoryManager {
 
     pub fn remove_token(&self, token: *const MemToken) {
         self.update_token(token);
-        let mut inner = self.mem_manager.lock().unwrap();
-        inner.remove_token(token);
+        {
+            let mut inner = self.mem_manager.lock().unwrap();
+            inner.remove_token(token);
+        }
+        // The manager lock must be released first: free() can only complete or
+        // start a reclamation cycle if its try_lock on that mutex succeeds
         self.free(token as *mut MemToken, 1);
     }
 
